@@ -2,7 +2,7 @@
     harness/hc_stdpath/src/bin/h_path_views.rs.  For each case the model is run on the same
     path bytes as the implementation and every observed result is compared (bit 1); the
     property oracles of [Spec] are evaluated on the IMPLEMENTATION's observed output (bit 2). *)
-From Sci Require Export StdPath.Model StdPath.Spec.
+From Sci Require Export StdPath.Model StdPath.ModelRouting StdPath.Spec Common.AesCmac.
 Local Open Scope N_scope.
 
 (** byte strings / models that repeat an earlier one are given by reference (Coq parses long
@@ -30,7 +30,10 @@ Record vstd := mkVS {
 
 Record vone := mkVO {
   vo_b : list N; vo_rev : N * list N; vo_expv : N; vo_m : onehop; vo_mrev : N * onehop;
-  vo_menc : N * list N; vo_conv : N * spath; vo_convenc : N * list N }.
+  vo_menc : N * list N; vo_conv : N * spath; vo_convenc : N * list N;
+  vo_key : list N;                          (* forwarding key used for set_second_hop *)
+  vo_ssh : list (N * list N * list N) }.    (* set_second_hop(0x1234, key, advanced): advanced,
+                                               view bytes afterwards, encoding of the model afterwards *)
 
 Inductive vcase := VStd (c : vstd) | VOne (c : vone).
 
@@ -109,7 +112,11 @@ Definition one_mismatch (c : vone) : bool :=
            | Ok p => (fst (vo_conv c) =? 0) && spath_eqb p (snd (vo_conv c)) && cb_eqb (enc_result p) (vo_convenc c)
            | Err e => (fst (vo_conv c) =? rev_code (Err e)) && (fst (vo_convenc c) =? 98)
            | Panic _ => false
-           end).
+           end
+        && forallb (fun '(adv, vb, mb) =>
+                      list_eqb N.eqb (oh_view_set_second_hop aes_cmac b 4660 (vo_key c) (adv =? 1)) vb
+                      && list_eqb N.eqb (oh_encode (oh_model_set_second_hop aes_cmac m 4660 (vo_key c) (adv =? 1))) mb)
+                   (vo_ssh c)).
 
 (** * property oracles on the implementation's observed output *)
 Definition std_oracle_ok (c : vstd) : bool :=
@@ -166,6 +173,8 @@ Definition one_oracle_ok (c : vone) : bool :=
             | _ => false
             end
           else true)
+      (* set_second_hop on the view and on the model build the same path *)
+      && forallb (fun '(_, vb, mb) => list_eqb N.eqb vb mb) (vo_ssh c)
     else true in
   atomic && nopanic && agree.
 
